@@ -4,9 +4,12 @@ package cmd
 
 import (
 	"github.com/hashicorp/consul/internal/verifsim/archiveworld"
+	"github.com/hashicorp/consul/internal/verifsim/fsmworld"
 	"github.com/hashicorp/consul/internal/verifsim/simkit"
 )
 
 var registry = map[string]simkit.World{
+	"C03": fsmworld.C03{},
+	"C04": fsmworld.C04{},
 	"C20": archiveworld.World{},
 }
